@@ -29,7 +29,7 @@ MIX: Dict[str, List[str]] = {
     "C11": ["margin", "margin", "cross", "random"],
 }
 
-QUICK_CASES = {"C05": 40, "C04": 90, "C06": 90}
+QUICK_CASES = {"C05": 35, "C04": 90, "C06": 90}
 
 
 def plan(prop: str, tier: str) -> Plan:
@@ -131,6 +131,8 @@ def run_shard(ctx: Context, res: ShardResult) -> None:
                 res.errors.append("ran out of time")
                 break
             cls = mix[i % len(mix)]
+            if cls == "long" and ctx.tier == "quick":
+                cls = "long_q"      # shorter histories on the quick tier (still several re-indexes of the open list)
             r = ctx.rng("exsim", i)
             if cls.startswith("micro_"):
                 micro.run_micro(cls, r, prop, res, other)
@@ -158,7 +160,7 @@ def run_shard(ctx: Context, res: ShardResult) -> None:
 
 
 def one(prop: str, sc: Dict[str, Any], res: ShardResult, other: collections.Counter) -> xrun.Run:
-    r = xrun.run_scenario(sc, res)
+    r = xrun.run_scenario(sc, res, listing_stride=2 if prop == "C05" else 6)
     res.evaluations += 1
     for k, v in r.stats.items():
         res.count(k, v)
